@@ -42,3 +42,957 @@ Section RoundTrip.
     rewrite !strip_npy_npy in E. inversion E. now apply show_injective.
   Qed.
 End RoundTrip.
+
+(** * The concrete encoding used by the correspondence round-trips for every period *)
+
+Lemma dec_enc_pos p : forall r, dec_pos (enc_pos p ++ r)%string = Some (p, r).
+Proof.
+  induction p as [q IH|q IH|]; intro r; cbn [enc_pos append dec_pos].
+  - cbn. now rewrite IH.
+  - cbn. now rewrite IH.
+  - reflexivity.
+Qed.
+
+Lemma dec_enc_z z r : dec_z (enc_z z ++ r)%string = Some (z, r).
+Proof.
+  destruct z as [|p|p]; cbn [enc_z append dec_z]; cbn; [reflexivity| |]; now rewrite dec_enc_pos.
+Qed.
+
+Lemma dec_enc_unit u r : dec_unit (enc_unit u ++ r)%string = Some (u, r).
+Proof. destruct u; reflexivity. Qed.
+
+Lemma append_nil_r (s : string) : (s ++ "")%string = s.
+Proof. induction s as [|c s IH]; cbn; [reflexivity|now rewrite IH]. Qed.
+
+Lemma enc_roundtrip p : parse_enc (show_enc p) = Ok p.
+Proof.
+  destruct p as [[u [[y m] d]] n]. unfold parse_enc, show_enc.
+  rewrite dec_enc_unit, !dec_enc_z.
+  rewrite <- (append_nil_r (enc_z n)), dec_enc_z. reflexivity.
+Qed.
+
+(** * Generic loop lemma *)
+
+Lemma foldM_spec {X S : Type} (f : X -> S -> res S) (I : S -> Prop) (R : S -> S -> Prop)
+      (Q : X -> S -> Prop) (G : X -> Prop) :
+  (forall s, R s s) -> (forall a b c, R a b -> R b c -> R a c) ->
+  (forall x s s', Q x s -> R s s' -> Q x s') ->
+  (forall x s, G x -> I s -> exists s', f x s = Ok s' /\ I s' /\ R s s' /\ Q x s') ->
+  forall l s, (forall x, In x l -> G x) -> I s ->
+  exists s', foldM f l s = Ok s' /\ I s' /\ R s s' /\ forall x, In x l -> Q x s'.
+Proof.
+  intros Rrefl Rtrans Qstable Hstep. induction l as [|x l IH]; intros s HG HI.
+  - exists s. cbn. repeat split; auto. intros x [].
+  - destruct (Hstep x s (HG x (or_introl eq_refl)) HI) as [s1 [E1 [I1 [R1 Q1]]]].
+    destruct (IH s1 (fun y Hy => HG y (or_intror Hy)) I1) as [s2 [E2 [I2 [R2 Q2]]]].
+    exists s2. cbn [foldM]. rewrite E1. repeat split; eauto.
+    intros y [<-|Hy]; eauto.
+Qed.
+
+(** * Files *)
+
+Lemma ent_eqb_iff a b : ent_eqb a b = true <-> a = b.
+Proof. destruct a, b; cbn; split; intro H; try reflexivity; discriminate. Qed.
+
+Lemma path_eqb_iff a b : path_eqb a b = true <-> a = b.
+Proof.
+  destruct a, b; cbn; try (split; intro H; try reflexivity; discriminate).
+  - rewrite ent_eqb_iff. split; [intros ->; reflexivity|]. intro H; now inversion H.
+  - rewrite andb_true_iff, Nat.eqb_eq, String.eqb_eq.
+    split; [intros [-> ->]; reflexivity|]. intro H; inversion H; auto.
+Qed.
+
+Lemma path_eqb_refl p : path_eqb p p = true.
+Proof. now apply path_eqb_iff. Qed.
+
+Lemma fs_read_write q p c f :
+  fs_read q (fs_write p c f) = if path_eqb q p then Some c else fs_read q f.
+Proof.
+  unfold fs_read, fs_write. cbn [find fst].
+  destruct (path_eqb q p) eqn:E; cbn [option_map snd]; auto.
+  rewrite find_filter; auto.
+  intros [p2 c2] H. cbn [fst] in *. apply path_eqb_iff in H. subst p2.
+  destruct (path_eqb p q) eqn:E2; auto. apply path_eqb_iff in E2. subst p.
+  rewrite path_eqb_refl in E. discriminate.
+Qed.
+
+Lemma fs_read_in q c f : fs_read q f = Some c -> In (q, c) f.
+Proof.
+  unfold fs_read. destruct (find _ f) as [[p c']|] eqn:E; cbn; [|discriminate].
+  intro H. inversion H. subst c'. apply find_some in E as [Hin Heq].
+  cbn [fst] in Heq. apply path_eqb_iff in Heq. now subst p.
+Qed.
+
+Lemma in_fs_write x p c f : In x (fs_write p c f) -> x = (p, c) \/ In x f.
+Proof.
+  unfold fs_write. intros [<-|H]; [now left|]. right. now apply filter_In in H as [H _].
+Qed.
+
+Definition writes (E : list (path * content)) (f0 : fs) : fs :=
+  fold_left (fun f e => fs_write (fst e) (snd e) f) E f0.
+
+Lemma writes_read : forall E,
+  (forall e1 e2, In e1 E -> In e2 E -> fst e1 = fst e2 -> snd e1 = snd e2) ->
+  forall e, In e E -> fs_read (fst e) (writes E []) = Some (snd e).
+Proof.
+  induction E as [|e0 E IH] using rev_ind; intros Hc e He; [destruct He|].
+  unfold writes. rewrite fold_left_app. cbn [fold_left]. rewrite fs_read_write.
+  destruct (path_eqb (fst e) (fst e0)) eqn:Eq.
+  - apply path_eqb_iff in Eq. f_equal. symmetry. apply Hc; auto.
+    apply in_or_app. right. now left.
+  - apply in_app_or in He as [He|[<-|[]]].
+    + apply IH; auto. intros e1 e2 H1 H2. apply Hc; apply in_or_app; now left.
+    + rewrite path_eqb_refl in Eq. discriminate.
+Qed.
+
+Lemma writes_in : forall E x, In x (writes E []) -> In x E.
+Proof.
+  induction E as [|e0 E IH] using rev_ind; intros x Hx; [exact Hx|].
+  unfold writes in Hx. rewrite fold_left_app in Hx. cbn [fold_left] in Hx.
+  apply in_fs_write in Hx as [->|Hx]; apply in_or_app.
+  - right. left. now destruct e0.
+  - left. now apply IH.
+Qed.
+
+Lemma listdir_var_in v f name :
+  In name (listdir_var v f) <-> exists c, In (PVar v name, c) f.
+Proof.
+  induction f as [|[p c] f IH]; cbn [listdir_var].
+  - split; [intros []|intros [c []]].
+  - destruct p as [e| | | |w nm];
+      try (rewrite IH; split; intros [c' H]; exists c'; [now right|destruct H as [H|H]; [discriminate|exact H]]).
+    destruct (Nat.eqb_spec w v) as [->|Hne].
+    + cbn [In]. rewrite IH. split.
+      * intros [<-|[c' H]]; [exists c; now left|exists c'; now right].
+      * intros [c' [H|H]]; [left; now inversion H|right; now exists c'].
+    + rewrite IH. split; intros [c' H]; exists c'; [now right|].
+      destruct H as [H|H]; [inversion H; congruence|exact H].
+Qed.
+
+Lemma listdir_top_in f v :
+  In v (listdir_top f) <-> exists name c, In (PVar v name, c) f.
+Proof.
+  induction f as [|[p c] f IH]; cbn [listdir_top].
+  - split; [intros []|intros [n [c []]]].
+  - destruct p as [e| | | |w nm];
+      try (rewrite IH; split; intros [n [c' H]]; exists n, c';
+           [now right|destruct H as [H|H]; [discriminate|exact H]]).
+    cbn [In]. rewrite filter_In, IH. split.
+    + intros [<-|[[n [c' H]] _]]; [exists nm, c; now left|exists n, c'; now right].
+    + intros [n [c' [H|H]]]; [left; now inversion H|].
+      destruct (Nat.eqb_spec v w) as [->|Hne]; [now left|right].
+      split; [now exists n, c'|reflexivity].
+Qed.
+
+Lemma files_get_set q p name d :
+  files_get q (files_set p name d) = if period_eqb q p then Some name else files_get q d.
+Proof.
+  unfold files_get, files_set. cbn [find fst].
+  destruct (period_eqb q p) eqn:E; cbn [option_map snd]; auto.
+  rewrite find_filter; auto.
+  intros [p2 n2] H. cbn [fst] in *. apply period_eqb_iff in H. subst p2.
+  destruct (period_eqb p q) eqn:E2; auto. apply period_eqb_iff in E2. subst p.
+  assert (period_eqb q q = true) by now apply period_eqb_iff. congruence.
+Qed.
+
+Lemma files_get_in p name d : files_get p d = Some name -> In (p, name) d.
+Proof.
+  unfold files_get. destruct (find _ d) as [[q n]|] eqn:E; cbn; [|discriminate].
+  intro H. inversion H. subst n. apply find_some in E as [Hin Heq].
+  cbn [fst] in Heq. apply period_eqb_iff in Heq. now subst q.
+Qed.
+
+Lemma in_files_get p name d : In (p, name) d -> exists n', files_get p d = Some n'.
+Proof.
+  intro H. unfold files_get.
+  destruct (find (fun e => period_eqb p (fst e)) d) as [[q n]|] eqn:E; [now exists n|].
+  exfalso. apply (find_none _ _ E) in H. cbn [fst] in H.
+  assert (period_eqb p p = true) by now apply period_eqb_iff. congruence.
+Qed.
+
+Lemma in_files_set e p name d : In e (files_set p name d) -> e = (p, name) \/ In e d.
+Proof.
+  unfold files_set. intros [<-|H]; [now left|]. right. now apply filter_In in H as [H _].
+Qed.
+
+Lemma lookup_in k a c : lookup k c = Some a -> In k (map fst c).
+Proof.
+  unfold lookup. destruct (find _ c) as [[k' a']|] eqn:E; cbn; [|discriminate].
+  intros _. apply find_some in E as [Hin Heq]. cbn [fst] in Heq. apply key_eqb_iff in Heq. subst k'.
+  apply in_map_iff. now exists (k, a').
+Qed.
+
+Lemma in_lookup k c : In k (map fst c) -> exists a, lookup k c = Some a.
+Proof.
+  intro H. apply in_map_iff in H as [[k' a'] [<- Hin]]. unfold lookup. cbn [fst].
+  destruct (find (fun kv => key_eqb k' (fst kv)) c) as [[k2 a2]|] eqn:E; [now exists a2|].
+  exfalso. apply (find_none _ _ E) in Hin. cbn [fst] in Hin. rewrite key_eqb_refl in Hin. discriminate.
+Qed.
+
+(** * Roles *)
+
+Lemma find_unique {A} (g : A -> string) (l : list A) (r : A) :
+  NoDup (map g l) -> In r l -> find (fun f => String.eqb (g f) (g r)) l = Some r.
+Proof.
+  induction l as [|x l IH]; intros Hnd Hin; [destruct Hin|].
+  cbn [map] in Hnd. inversion Hnd as [|? ? Hnotin Hnd']. subst. cbn [find].
+  destruct (String.eqb_spec (g x) (g r)) as [E|Hne].
+  - destruct Hin as [->|Hin]; [reflexivity|]. exfalso. apply Hnotin. rewrite E. now apply in_map.
+  - destruct Hin as [->|Hin]; [congruence|]. now apply IH.
+Qed.
+
+Lemma find_self (l : list nat) r : In r l -> find (Nat.eqb r) l = Some r.
+Proof.
+  induction l as [|x l IH]; intros Hin; [destruct Hin|]. cbn [find].
+  destruct (Nat.eqb_spec r x) as [->|Hne]; [reflexivity|].
+  destruct Hin as [->|Hin]; [congruence|auto].
+Qed.
+
+Lemma decode_encode e r :
+  NoDup (map (role_key e) (flattened_roles e)) -> In r (flattened_roles e) ->
+  decode_role e (encode_role e r) = r.
+Proof.
+  intros Hnd Hin. unfold encode_role. rewrite (find_self _ _ Hin).
+  unfold decode_role. now rewrite (find_unique (role_key e) _ r Hnd Hin).
+Qed.
+
+(** * restore (dump s) = s *)
+
+Section Identity.
+  Variable show : period -> string.
+  Variable parse : string -> res period.
+  Variable storable : period -> Prop.
+  Hypothesis round_trip : forall p, storable p -> parse (show p) = Ok p.
+  Variable sy : sys.
+  Variable og : option gentity.
+
+  (** What the holders of a simulation hold between two top-level requests: arrays of
+      declared, not neutralised variables, one element per member of the variable's
+      entity, under the period the in-memory store keeps them (the eternity period for an
+      eternal variable, otherwise one period of the definition unit), and that period is
+      storable. *)
+  Definition key_ok (u : simu) (k : key) (a : val) : Prop :=
+    exists x, nth_error (vars sy) (fst k) = Some x
+      /\ v_neutral x = false
+      /\ (if is_eternal x then snd k = eternity_period
+          else p_unit (snd k) = v_unit x /\ (p_size (snd k) <= 1)%Z)
+      /\ length a = count_in u (v_ent x)
+      /\ storable (snd k).
+
+  Definition group_ok (e : gentity) (u : simu) : Prop :=
+    u_gcount u = length (u_gids u)
+    /\ flattened_roles e <> []
+    /\ NoDup (map (role_key e) (flattened_roles e))
+    /\ (forall r, In r (u_roles u) -> In r (flattened_roles e))
+    /\ (exists pos, positions u = Ok pos).
+
+  Definition dumpable (u : simu) : Prop :=
+    (forall k a, lookup k (cache (u_st u)) = Some a -> key_ok u k a)
+    /\ u_pcount u = length (u_pids u)
+    /\ match og with Some e => group_ok e u | None => u_gcount u = 0 end.
+
+  Definition same_structure (u u' : simu) : Prop :=
+    u_pcount u' = u_pcount u /\ u_pids u' = u_pids u /\
+    match og with
+    | Some _ => u_gcount u' = u_gcount u /\ u_gids u' = u_gids u /\ u_members u' = u_members u
+                /\ u_roles u' = u_roles u /\ positions u' = positions u
+    | None => True
+    end.
+
+  Lemma same_structure_pop u u' : same_structure u u' -> pop_of og u' = pop_of og u.
+  Proof.
+    unfold same_structure, pop_of. intros [H1 [H2 H3]]. destruct og as [e|].
+    - destruct H3 as [H3 [H4 [H5 [H6 H7]]]]. now rewrite H3, H5, H6.
+    - now rewrite H1.
+  Qed.
+
+  Variable u : simu.
+  Hypothesis Hkeys : forall k a, lookup k (cache (u_st u)) = Some a -> key_ok u k a.
+
+  Let C := cache (u_st u).
+  Let pp := pop_of og u.
+
+  Definition path_of (k : key) : path := PVar (fst k) (file_name show (snd k)).
+  Definition entry_of (k : key) : path * content :=
+    (path_of k, CArr (match lookup k C with Some a => a | None => [] end)).
+
+  Lemma dump_key_ok f k a : lookup k C = Some a ->
+    dump_key show sy pp (u_st u) f k = fs_write (path_of k) (CArr a) f.
+  Proof.
+    intro Hl. destruct (Hkeys k a Hl) as [x [Ex [Hn [Hp [_ _]]]]].
+    unfold dump_key. rewrite Ex. unfold get_array. rewrite Hn.
+    assert (Hnorm : norm x (snd k) = snd k).
+    { unfold norm. unfold is_eternal in Hp. destruct (unit_eqb (v_unit x) Eternity); auto. }
+    rewrite Hnorm. replace (fst k, snd k) with k by now destruct k.
+    fold C. rewrite Hl. unfold disk_put, path_of.
+    destruct (is_eternal x); [now rewrite Hp|reflexivity].
+  Qed.
+
+  Lemma dump_holders_writes : dump_holders show sy pp (u_st u) = writes (map entry_of (map fst C)) [].
+  Proof.
+    unfold dump_holders, writes. fold C.
+    assert (H : forall keys f, (forall k, In k keys -> In k (map fst C)) ->
+              fold_left (dump_key show sy pp (u_st u)) keys f
+              = fold_left (fun f e => fs_write (fst e) (snd e) f) (map entry_of keys) f).
+    { induction keys as [|k keys IH]; intros f Hin; [reflexivity|]. cbn [fold_left map].
+      destruct (in_lookup k C (Hin k (or_introl eq_refl))) as [a Ha].
+      rewrite (dump_key_ok f k a Ha).
+      assert (Ee : entry_of k = (path_of k, CArr a)) by (unfold entry_of; now rewrite Ha).
+      rewrite Ee. cbn [fst snd].
+      apply IH. intros k' Hk'. apply Hin. now right. }
+    apply H. auto.
+  Qed.
+
+  Lemma path_of_injective k k' a a' :
+    lookup k C = Some a -> lookup k' C = Some a' -> path_of k = path_of k' -> k = k'.
+  Proof.
+    intros H H' E. destruct (Hkeys k a H) as [_ [_ [_ [_ [_ Hs]]]]].
+    destruct (Hkeys k' a' H') as [_ [_ [_ [_ [_ Hs']]]]].
+    unfold path_of in E. inversion E as [[Ev En]].
+    apply (file_name_injective show parse storable round_trip) in En; auto.
+    destruct k, k'; cbn [fst snd] in *. congruence.
+  Qed.
+
+  (** What the variable part [H] of the dump holds. *)
+  Let H := dump_holders show sy pp (u_st u).
+
+  Lemma holders_read k a : lookup k C = Some a -> fs_read (path_of k) H = Some (CArr a).
+  Proof.
+    intro Hl. unfold H. rewrite dump_holders_writes.
+    assert (Hin : In (entry_of k) (map entry_of (map fst C))).
+    { apply in_map. eapply lookup_in; eauto. }
+    assert (Ee : entry_of k = (path_of k, CArr a)) by (unfold entry_of; now rewrite Hl).
+    rewrite Ee in Hin.
+    apply (writes_read (map entry_of (map fst C))) with (e := (path_of k, CArr a)); [|exact Hin].
+    intros e1 e2 H1 H2 E. apply in_map_iff in H1 as [k1 [<- K1]], H2 as [k2 [<- K2]].
+    destruct (in_lookup _ _ K1) as [a1 A1], (in_lookup _ _ K2) as [a2 A2].
+    unfold entry_of in *. cbn [fst snd] in *.
+    assert (k1 = k2) by (eapply path_of_injective; eauto). now subst k2.
+  Qed.
+
+  Lemma holders_in q c : In (q, c) H ->
+    exists k a, lookup k C = Some a /\ q = path_of k /\ c = CArr a.
+  Proof.
+    unfold H. rewrite dump_holders_writes. intro Hin. apply writes_in in Hin.
+    apply in_map_iff in Hin as [k [E K]]. destruct (in_lookup _ _ K) as [a A].
+    exists k, a. unfold entry_of in E. rewrite A in E. inversion E. auto.
+  Qed.
+
+  (** The restore of the variable directories, for any file system [f] that agrees with [H]
+      on the variable paths. *)
+  Variable f : fs.
+  Hypothesis f_read : forall v name, fs_read (PVar v name) f = fs_read (PVar v name) H.
+  Hypothesis f_var : forall v, listdir_var v f = listdir_var v H.
+  Hypothesis f_top : listdir_top f = listdir_top H.
+  Variable pcount gcount : nat.
+  Hypothesis Hpc : pcount = u_pcount u.
+  Hypothesis Hgc : gcount = u_gcount u.
+
+  Definition Sound (s : st) : Prop :=
+    (forall k a, lookup k (cache s) = Some a -> lookup k C = Some a) /\ stack s = [] /\ invalid s = [].
+  Definition Grows (s s' : st) : Prop :=
+    forall k a, lookup k (cache s) = Some a -> lookup k (cache s') = Some a.
+
+  Lemma name_in_dir v name : In name (listdir_var v f) ->
+    exists p a, name = file_name show p /\ lookup (v, p) C = Some a.
+  Proof.
+    rewrite f_var, listdir_var_in. intros [c Hin].
+    destruct (holders_in _ _ Hin) as [k [a [Hl [Hq _]]]].
+    unfold path_of in Hq. inversion Hq. subst. exists (snd k), a. split; auto.
+    all: now destruct k.
+  Qed.
+
+  Lemma key_in_dir v p a : lookup (v, p) C = Some a ->
+    In (file_name show p) (listdir_var v f) /\ In v (listdir_top f).
+  Proof.
+    intro Hl. pose proof (fs_read_in _ _ _ (holders_read _ _ Hl)) as Hin.
+    unfold path_of in Hin. cbn [fst snd] in Hin. split.
+    - rewrite f_var, listdir_var_in. eauto.
+    - rewrite f_top, listdir_top_in. eauto.
+  Qed.
+
+  Section OneVariable.
+    Variable v : nat.
+
+    Definition good (d : files) : Prop :=
+      forall p name, In (p, name) d ->
+        name = file_name show p /\ exists a, lookup (v, p) C = Some a.
+
+    Lemma disk_restore_spec : forall names d0,
+      (forall name, In name names -> exists p a, name = file_name show p /\ lookup (v, p) C = Some a) ->
+      good d0 ->
+      exists d, disk_restore parse names d0 = Ok d /\ good d
+        /\ (forall p, files_get p d0 = Some (file_name show p) -> files_get p d = Some (file_name show p))
+        /\ (forall p a, lookup (v, p) C = Some a -> In (file_name show p) names ->
+                        files_get p d = Some (file_name show p)).
+    Proof.
+      induction names as [|name names IH]; intros d0 Hn Hg.
+      - exists d0. split; [reflexivity|]. split; [exact Hg|]. split; [auto|]. intros q b _ [].
+      - destruct (Hn name (or_introl eq_refl)) as [p [a [-> Hl]]].
+        destruct (Hkeys _ _ Hl) as [_ [_ [_ [_ [_ Hs]]]]]. cbn [snd] in Hs.
+        cbn [disk_restore]. unfold file_name at 1. rewrite strip_npy_npy, (round_trip p Hs).
+        fold (file_name show p).
+        destruct (IH (files_set p (file_name show p) d0)) as [d [E [G [P1 P2]]]].
+        + intros n Hin. apply Hn. now right.
+        + intros q n Hin. apply in_files_set in Hin as [Hin|Hin]; [|now apply Hg].
+          inversion Hin. subst. split; eauto.
+        + exists d. split; [exact E|]. split; [exact G|]. split.
+          * intros q Hq. apply P1. rewrite files_get_set.
+            destruct (period_eqb q p) eqn:Eq; auto. apply period_eqb_iff in Eq. now subst q.
+          * intros q b Hb [Hin|Hin]; [|eapply P2; eauto].
+            assert (q = p).
+            { destruct (Hkeys _ _ Hb) as [_ [_ [_ [_ [_ Hsq]]]]]. cbn [snd] in Hsq.
+              symmetry in Hin. eapply file_name_injective; eauto. }
+            subst q. apply P1. rewrite files_get_set.
+            assert (Hpp : period_eqb p p = true) by now apply period_eqb_iff. now rewrite Hpp.
+    Qed.
+
+    Variable x : var.
+    Hypothesis Ex : nth_error (vars sy) v = Some x.
+    Let count := match v_ent x with EPerson => pcount | EGroup => gcount end.
+
+    Lemma restore_period_step d e s : good d -> In e d -> Sound s ->
+      exists s', restore_period x v count f d e s = Ok s' /\ Sound s' /\ Grows s s'
+                 /\ exists a, lookup (v, fst e) C = Some a /\ lookup (v, fst e) (cache s') = Some a.
+    Proof.
+      intros Hg Hin [S1 [S2 S3]]. destruct e as [p name]. cbn [fst].
+      destruct (Hg p name Hin) as [-> [a Hl]].
+      destruct (Hkeys _ _ Hl) as [x' [Ex' [Hneu [Hp [Hlen Hs]]]]]. cbn [fst snd] in *.
+      rewrite Ex in Ex'. inversion Ex'. subst x'. clear Ex'.
+      unfold restore_period. cbn [fst].
+      assert (Hsel : (if is_eternal x then eternity_period else p) = p).
+      { destruct (is_eternal x); auto. }
+      rewrite Hsel.
+      destruct (in_files_get _ _ _ Hin) as [n' Hn'].
+      pose proof (files_get_in _ _ _ Hn') as Hin'. destruct (Hg _ _ Hin') as [-> _].
+      rewrite Hn', f_read.
+      pose proof (holders_read _ _ Hl) as Hr. unfold path_of in Hr. cbn [fst snd] in Hr. rewrite Hr.
+      unfold holder_set.
+      assert (Hcount : length a = count).
+      { rewrite Hlen. unfold count, count_in. destruct (v_ent x); congruence. }
+      rewrite Hcount, Nat.eqb_refl. cbn [negb].
+      assert (Hchk : negb (is_eternal x) && (negb (unit_eqb (v_unit x) (p_unit p)) || (1 <? p_size p)%Z) = false).
+      { destruct (is_eternal x); [reflexivity|]. destruct Hp as [Hu Hz]. cbn [negb andb].
+        rewrite Hu. assert (Huu : unit_eqb (v_unit x) (v_unit x) = true) by now apply unit_eqb_iff.
+        rewrite Huu. cbn [negb orb]. apply Z.ltb_ge. exact Hz. }
+      rewrite Hchk.
+      assert (Hnorm : norm x p = p).
+      { unfold norm. unfold is_eternal in Hp. destruct (unit_eqb (v_unit x) Eternity); auto. }
+      rewrite Hnorm.
+      exists (put (v, p) a s). split; [reflexivity|]. split; [|split].
+      - split; [|now cbn]. intros k b. rewrite lookup_put.
+        destruct (key_eqb k (v, p)) eqn:Ek; [|apply S1].
+        apply key_eqb_iff in Ek. subst k. intro Hb. inversion Hb. now subst b.
+      - intros k b Hb. rewrite lookup_put.
+        destruct (key_eqb k (v, p)) eqn:Ek; [|exact Hb].
+        apply key_eqb_iff in Ek. subst k. apply S1 in Hb. congruence.
+      - exists a. split; [exact Hl|]. rewrite lookup_put. now rewrite key_eqb_refl.
+    Qed.
+  End OneVariable.
+
+  Lemma Grows_refl s : Grows s s.
+  Proof. intros k a Hk. exact Hk. Qed.
+  Lemma Grows_trans a b c : Grows a b -> Grows b c -> Grows a c.
+  Proof. intros H1 H2 k x Hk. auto. Qed.
+
+  Lemma restore_holder_step v s : In v (listdir_top f) -> Sound s ->
+    exists s', restore_holder parse sy pcount gcount f v s = Ok s' /\ Sound s' /\ Grows s s'
+               /\ forall p a, lookup (v, p) C = Some a -> lookup (v, p) (cache s') = Some a.
+  Proof.
+    intros Hv HS.
+    assert (Hx : exists x, nth_error (vars sy) v = Some x).
+    { rewrite f_top in Hv. apply listdir_top_in in Hv as [name [c Hin]].
+      destruct (holders_in _ _ Hin) as [k [a [Hl [Hq _]]]]. inversion Hq. subst.
+      destruct (Hkeys _ _ Hl) as [x [Ex _]]. eauto. }
+    destruct Hx as [x Ex]. unfold restore_holder. rewrite Ex.
+    destruct (disk_restore_spec v (listdir_var v f) []) as [d [Ed [Gd [_ Pd]]]].
+    - intros name Hn. now apply name_in_dir.
+    - intros p name [].
+    - rewrite Ed.
+      set (cnt := match v_ent x with EPerson => pcount | EGroup => gcount end).
+      assert (Hstable : forall (e : period * string) s1 s2,
+                (exists a, lookup (v, fst e) C = Some a /\ lookup (v, fst e) (cache s1) = Some a) ->
+                Grows s1 s2 ->
+                exists a, lookup (v, fst e) C = Some a /\ lookup (v, fst e) (cache s2) = Some a).
+      { intros e s1 s2 [a [A1 A2]] Hg. exists a. split; auto. }
+      assert (Hstep : forall e s1, In e d -> Sound s1 ->
+                exists s2, restore_period x v cnt f d e s1 = Ok s2 /\ Sound s2 /\ Grows s1 s2 /\
+                  exists a, lookup (v, fst e) C = Some a /\ lookup (v, fst e) (cache s2) = Some a).
+      { intros e s1 He Hs1. now apply restore_period_step. }
+      destruct (foldM_spec (restore_period x v cnt f d) Sound Grows _ (fun e => In e d)
+                  Grows_refl Grows_trans Hstable Hstep d s (fun e He => He) HS)
+        as [s' [E' [S' [G' Q']]]].
+      exists s'. split; [exact E'|]. split; [exact S'|]. split; [exact G'|].
+      intros p a Hl. destruct (key_in_dir v p a Hl) as [Hname _].
+      pose proof (Pd p a Hl Hname) as Hget. apply files_get_in in Hget.
+      destruct (Q' _ Hget) as [a' [A1 A2]]. cbn [fst] in *. congruence.
+  Qed.
+
+  Lemma restore_vars_spec :
+    exists s', foldM (restore_holder parse sy pcount gcount f) (listdir_top f) (init []) = Ok s'
+      /\ (forall k, lookup k (cache s') = lookup k C) /\ stack s' = [] /\ invalid s' = [].
+  Proof.
+    assert (Hstable : forall v s1 s2,
+              (forall p a, lookup (v, p) C = Some a -> lookup (v, p) (cache s1) = Some a) ->
+              Grows s1 s2 ->
+              forall p a, lookup (v, p) C = Some a -> lookup (v, p) (cache s2) = Some a).
+    { intros v s1 s2 Hq Hg p a Hl. auto. }
+    assert (Hstep : forall v s, In v (listdir_top f) -> Sound s ->
+              exists s', restore_holder parse sy pcount gcount f v s = Ok s' /\ Sound s' /\ Grows s s'
+                /\ forall p a, lookup (v, p) C = Some a -> lookup (v, p) (cache s') = Some a).
+    { intros v s Hv Hs. now apply restore_holder_step. }
+    assert (HS0 : Sound (init [])).
+    { split; [|split; reflexivity]. intros k a Hk. discriminate. }
+    destruct (foldM_spec (restore_holder parse sy pcount gcount f) Sound Grows _
+                (fun v => In v (listdir_top f)) Grows_refl Grows_trans Hstable Hstep
+                (listdir_top f) (init []) (fun v Hv => Hv) HS0)
+      as [s' [E' [[S1 [S2 S3]] [_ Q']]]].
+    exists s'. split; [exact E'|]. split; [|split; assumption]. intro k.
+    destruct (lookup k C) as [a|] eqn:Hl.
+    - destruct k as [v p]. destruct (key_in_dir v p a Hl) as [_ Hv]. eapply Q'; eauto.
+    - destruct (lookup k (cache s')) as [a|] eqn:Hl'; auto. apply S1 in Hl'. congruence.
+  Qed.
+End Identity.
+
+(** Entity files do not interfere with the variable directories. *)
+Definition entity_path (e : path * content) : Prop :=
+  match fst e with PVar _ _ => False | _ => True end.
+
+Lemma prefix_agrees (P H : fs) : Forall entity_path P ->
+  (forall v name, fs_read (PVar v name) (P ++ H) = fs_read (PVar v name) H)
+  /\ (forall v, listdir_var v (P ++ H) = listdir_var v H)
+  /\ listdir_top (P ++ H) = listdir_top H.
+Proof.
+  induction 1 as [|[p c] P Hp _ [IH1 [IH2 IH3]]]; [auto|].
+  unfold entity_path in Hp. cbn [fst] in Hp.
+  destruct p; try contradiction; (split; [|split]); intros; cbn [app listdir_var listdir_top]; auto;
+    unfold fs_read in *; cbn [find fst path_eqb]; apply IH1.
+Qed.
+
+Theorem restore_dump_identity_proof :
+  forall (show : period -> string) (parse : string -> res period) (storable : period -> Prop),
+  (forall p, storable p -> parse (show p) = Ok p) ->
+  forall sy og u, dumpable storable sy og u ->
+  exists f u', dump_simulation show sy og u [] = Ok f
+    /\ restore_simulation parse sy og f = Ok u'
+    /\ (forall k, lookup k (cache (u_st u')) = lookup k (cache (u_st u)))
+    /\ stack (u_st u') = [] /\ invalid (u_st u') = []
+    /\ same_structure og u u'
+    /\ pop_of og u' = pop_of og u.
+Proof.
+  intros show parse storable RT sy og u [Hkeys [Hpc Hg]].
+  set (H := dump_holders show sy (pop_of og u) (u_st u)).
+  destruct og as [e|].
+  - destruct Hg as [Hgc [Hfl [Hnd [Hroles [pos Hpos]]]]].
+    set (P := [ (PIds EPerson, CNat (u_pids u)); (PIds EGroup, CNat (u_gids u)); (PPosition, CNat pos);
+                (PEntityId, CNat (u_members u));
+                (PRole, CStr (map (encode_role e) (u_roles u))) ]).
+    assert (HP : Forall entity_path P) by (repeat constructor).
+    destruct (prefix_agrees P H HP) as [A1 [A2 A3]].
+    destruct (restore_vars_spec show parse storable RT sy (Some e) u Hkeys (P ++ H) A1 A2 A3
+                (length (u_pids u)) (length (u_gids u)) (eq_sym Hpc) (eq_sym Hgc))
+      as [s' [E' [L' [S' I']]]].
+    assert (Hdec : map (decode_role e) (map (encode_role e) (u_roles u)) = u_roles u).
+    { rewrite map_map. rewrite <- (map_id (u_roles u)) at 2. apply map_ext_in.
+      intros r Hr. apply decode_encode; auto. }
+    exists (P ++ H). eexists. split; [|split].
+    + unfold dump_simulation, dump_group. rewrite Hpos.
+      destruct (flattened_roles e) eqn:Efl; [contradiction|]. reflexivity.
+    + unfold restore_simulation, restore_group.
+      destruct (flattened_roles e) eqn:Efl; [contradiction|].
+      unfold read_nats, fs_read, P. cbn [app find fst snd path_eqb ent_eqb option_map].
+      unfold restore_persons, read_nats, fs_read. cbn [app find fst snd path_eqb ent_eqb option_map].
+      cbn [u_pcount u_gcount u_st empty_simu].
+      unfold P in E'. cbn [app] in E'. rewrite E'. reflexivity.
+    + cbn [with_st u_st u_pcount u_pids u_gcount u_gids u_members u_roles u_pos].
+      split; [exact L'|]. split; [exact S'|]. split; [exact I'|].
+      assert (SS : same_structure (Some e) u
+                (with_st {| u_pcount := length (u_pids u); u_pids := u_pids u;
+                            u_gcount := length (u_gids u); u_gids := u_gids u;
+                            u_members := u_members u;
+                            u_roles := map (decode_role e) (map (encode_role e) (u_roles u));
+                            u_pos := Some pos; u_st := init [] |} s')).
+      { unfold same_structure, with_st, positions. cbn [u_pcount u_pids u_gcount u_gids u_members u_roles u_pos].
+        repeat split; auto. all: fold (positions u); now rewrite Hpos. }
+      split; [exact SS|]. now apply same_structure_pop.
+  - set (P := [ (PIds EPerson, CNat (u_pids u)) ]).
+    assert (HP : Forall entity_path P) by (repeat constructor).
+    destruct (prefix_agrees P H HP) as [A1 [A2 A3]].
+    destruct (restore_vars_spec show parse storable RT sy None u Hkeys (P ++ H) A1 A2 A3
+                (length (u_pids u)) 0 (eq_sym Hpc) (eq_sym Hg))
+      as [s' [E' [L' [S' I']]]].
+    exists (P ++ H). eexists. split; [|split].
+    + reflexivity.
+    + unfold restore_simulation, restore_persons, read_nats, fs_read, P.
+      cbn [app find fst snd path_eqb ent_eqb option_map].
+      cbn [u_pcount u_gcount u_st empty_simu].
+      unfold P in E'. cbn [app] in E'. rewrite E'. reflexivity.
+    + cbn [with_st u_st].
+      split; [exact L'|]. split; [exact S'|]. split; [exact I'|].
+      assert (SS : same_structure None u
+                (with_st {| u_pcount := length (u_pids u); u_pids := u_pids u;
+                            u_gcount := 0; u_gids := []; u_members := []; u_roles := [];
+                            u_pos := None; u_st := init [] |} s')).
+      { unfold same_structure, with_st. cbn [u_pcount u_pids]. auto. }
+      split; [exact SS|]. now apply same_structure_pop.
+Qed.
+
+(** * Calculations only look at the cache as a finite map *)
+
+(** Two machine states that hold the same arrays (same lookup for every key), the same
+    evaluation stack and the same invalidated entries. *)
+Definition same_state (s s' : st) : Prop :=
+  (forall k, lookup k (cache s) = lookup k (cache s')) /\ stack s = stack s' /\ invalid s = invalid s'.
+
+Lemma same_state_refl s : same_state s s.
+Proof. repeat split. Qed.
+
+(** Generic evaluator, two related state types *)
+Section Rel2.
+  Variable sy : sys.
+  Variable pp : popu.
+  Context {S1 S2 : Type}.
+  Variable rec1 : S1 -> nat -> period -> S1 * res val.
+  Variable rec2 : S2 -> nat -> period -> S2 * res val.
+  Variable Rel : S1 -> S2 -> Prop.
+  Hypothesis Hrec : forall s s' w q, Rel s s' ->
+    Rel (fst (rec1 s w q)) (fst (rec2 s' w q)) /\ snd (rec1 s w q) = snd (rec2 s' w q).
+
+  Lemma sum_calc_rel : forall subs w acc s s', Rel s s' ->
+    Rel (fst (sum_calc rec1 s w subs acc)) (fst (sum_calc rec2 s' w subs acc)) /\
+    snd (sum_calc rec1 s w subs acc) = snd (sum_calc rec2 s' w subs acc).
+  Proof.
+    induction subs as [|q r IH]; intros w acc s s' Hs; cbn; [auto|].
+    destruct (Hrec s s' w q Hs) as [HP Hr].
+    destruct (rec1 s w q) as [s1 r1]; destruct (rec2 s' w q) as [s1' r1']; cbn [fst snd] in *. subst r1'.
+    destruct r1 as [a|e]; cbn [fst snd]; auto.
+  Qed.
+
+  Lemma calc_add_rel : forall w x q s s', Rel s s' ->
+    Rel (fst (calc_add rec1 s w x q)) (fst (calc_add rec2 s' w x q)) /\
+    snd (calc_add rec1 s w x q) = snd (calc_add rec2 s' w x q).
+  Proof.
+    intros w x q s s' Hs. unfold calc_add.
+    destruct (_ <? _)%Z; cbn [fst snd]; auto.
+    destruct (unit_eqb _ _); cbn [fst snd]; auto.
+    destruct (negb _); cbn [fst snd]; auto.
+    destruct (subperiods _ _); cbn [fst snd]; auto.
+    now apply sum_calc_rel.
+  Qed.
+
+  Lemma calc_divide_rel : forall w x q s s', Rel s s' ->
+    Rel (fst (calc_divide rec1 s w x q)) (fst (calc_divide rec2 s' w x q)) /\
+    snd (calc_divide rec1 s w x q) = snd (calc_divide rec2 s' w x q).
+  Proof.
+    intros w x q s s' Hs. unfold calc_divide.
+    destruct (_ || _); cbn [fst snd]; auto.
+    destruct (negb (dated_unit (v_unit x))); cbn [fst snd]; auto.
+    destruct (_ || _); cbn [fst snd]; auto.
+    destruct (divide_period _ _) as [cp|]; cbn [fst snd]; auto.
+    destruct (divide_denominator _ _); cbn [fst snd]; auto.
+    destruct (Hrec s s' w cp Hs) as [HP Hr].
+    destruct (rec1 s w cp) as [s1 r1]; destruct (rec2 s' w cp) as [s1' r1']; cbn [fst snd] in *. subst r1'.
+    destruct r1; cbn [fst snd]; auto.
+  Qed.
+
+  Lemma call_rel : forall c w q o s s', Rel s s' ->
+    Rel (fst (call rec1 sy c s w q o)) (fst (call rec2 sy c s' w q o)) /\
+    snd (call rec1 sy c s w q o) = snd (call rec2 sy c s' w q o).
+  Proof.
+    intros c w q o s s' Hs. unfold call.
+    destruct (nth_error (vars sy) w) as [x|] eqn:Ex; cbn [fst snd]; auto.
+    destruct (negb _); cbn [fst snd]; auto.
+    destruct o; cbn [fst snd]; auto.
+    - now apply calc_add_rel.
+    - destruct (calc_divide_rel w x q s s' Hs) as [HP Hr].
+      destruct (calc_divide rec1 s w x q) as [s1 r1]; destruct (calc_divide rec2 s' w x q) as [s1' r1'].
+      cbn [fst snd] in *. subst r1'. destruct r1 as [[a d]|]; cbn [fst snd]; auto.
+  Qed.
+
+  Lemma eval_rel : forall e c s s' p, Rel s s' ->
+    Rel (fst (eval rec1 sy pp c s p e)) (fst (eval rec2 sy pp c s' p e)) /\
+    snd (eval rec1 sy pp c s p e) = snd (eval rec2 sy pp c s' p e).
+  Proof.
+    induction e as [z|w pt o|op a IHa b IHb|a IHa|cn IHc a IHa b IHb|k|g role a IHa|role|role a IHa|f|k];
+      intros c s s' p Hs; cbn [eval] in *; auto.
+    - destruct (apply_ptrans pt p); cbn [fst snd]; auto. now apply call_rel.
+    - destruct (IHa c s s' p Hs) as [HP1 Hr1].
+      destruct (eval rec1 sy pp c s p a) as [s1 r1]; destruct (eval rec2 sy pp c s' p a) as [s1' r1'].
+      cbn [fst snd] in *. subst r1'. destruct r1 as [x|]; cbn [fst snd]; auto.
+      destruct (IHb c s1 s1' p HP1) as [HP2 Hr2].
+      destruct (eval rec1 sy pp c s1 p b) as [s2 r2]; destruct (eval rec2 sy pp c s1' p b) as [s2' r2'].
+      cbn [fst snd] in *. subst r2'. destruct r2; cbn [fst snd]; auto.
+    - destruct (IHa c s s' p Hs) as [HP1 Hr1].
+      destruct (eval rec1 sy pp c s p a) as [s1 r1]; destruct (eval rec2 sy pp c s' p a) as [s1' r1'].
+      cbn [fst snd] in *. subst r1'. auto.
+    - destruct (IHc c s s' p Hs) as [HP1 Hr1].
+      destruct (eval rec1 sy pp c s p cn) as [s1 r1]; destruct (eval rec2 sy pp c s' p cn) as [s1' r1'].
+      cbn [fst snd] in *. subst r1'. destruct r1 as [x|]; cbn [fst snd]; auto.
+      destruct (IHa c s1 s1' p HP1) as [HP2 Hr2].
+      destruct (eval rec1 sy pp c s1 p a) as [s2 r2]; destruct (eval rec2 sy pp c s1' p a) as [s2' r2'].
+      cbn [fst snd] in *. subst r2'. destruct r2 as [y|]; cbn [fst snd]; auto.
+      destruct (IHb c s2 s2' p HP2) as [HP3 Hr3].
+      destruct (eval rec1 sy pp c s2 p b) as [s3 r3]; destruct (eval rec2 sy pp c s2' p b) as [s3' r3'].
+      cbn [fst snd] in *. subst r3'. destruct r3; cbn [fst snd]; auto.
+    - destruct (nth_error (params sy) k); cbn [fst snd]; auto. destruct (get_at _ _); cbn [fst snd]; auto.
+    - destruct (IHa EPerson s s' p Hs) as [HP1 Hr1].
+      destruct (eval rec1 sy pp EPerson s p a) as [s1 r1];
+        destruct (eval rec2 sy pp EPerson s' p a) as [s1' r1'].
+      cbn [fst snd] in *. subst r1'. auto.
+    - destruct (IHa EGroup s s' p Hs) as [HP1 Hr1].
+      destruct (eval rec1 sy pp EGroup s p a) as [s1 r1];
+        destruct (eval rec2 sy pp EGroup s' p a) as [s1' r1'].
+      cbn [fst snd] in *. subst r1'. auto.
+    - destruct (existsb _ _); cbn [fst snd]; auto.
+  Qed.
+End Rel2.
+
+Lemma lookup_filter_key (g : key -> bool) c k :
+  lookup k (filter (fun kv => g (fst kv)) c) = if g k then lookup k c else None.
+Proof.
+  unfold lookup. induction c as [|[k' a] c IH]; cbn [filter find fst].
+  - now destruct (g k).
+  - destruct (g k') eqn:Eg; cbn [find fst].
+    + destruct (key_eqb k k') eqn:Ek.
+      * apply key_eqb_iff in Ek. subst k'. now rewrite Eg.
+      * exact IH.
+    + destruct (key_eqb k k') eqn:Ek; [|exact IH].
+      apply key_eqb_iff in Ek. subst k'. rewrite Eg in *. exact IH.
+Qed.
+
+Lemma delete_one_same sy k0 c c' :
+  (forall k, lookup k c = lookup k c') ->
+  forall k, lookup k (delete_one sy k0 c) = lookup k (delete_one sy k0 c').
+Proof.
+  intros Hc k. unfold delete_one. destruct (nth_error (vars sy) (fst k0)) as [x|]; [|apply Hc].
+  rewrite !(lookup_filter_key
+              (fun k1 => negb (Nat.eqb (fst k1) (fst k0) && contains (norm x (snd k0)) (snd k1)))).
+  now rewrite Hc.
+Qed.
+
+Lemma fold_delete_same sy : forall l c c', (forall k, lookup k c = lookup k c') ->
+  forall k, lookup k (fold_left (fun c k => delete_one sy k c) l c)
+            = lookup k (fold_left (fun c k => delete_one sy k c) l c').
+Proof.
+  induction l as [|k0 l IH]; intros c c' Hc; [exact Hc|].
+  cbn [fold_left]. apply IH. now apply delete_one_same.
+Qed.
+
+Lemma purge_same sy s s' : same_state s s' -> same_state (purge sy s) (purge sy s').
+Proof.
+  intros [Hc [Hs Hi]]. unfold purge. rewrite <- Hs, <- Hi.
+  destruct (stack s) eqn:Est.
+  - split; [|split; reflexivity]. cbn [cache]. now apply fold_delete_same.
+  - split; [exact Hc|]. split; [congruence|exact Hi].
+Qed.
+
+Lemma put_same k a s s' : same_state s s' -> same_state (put k a s) (put k a s').
+Proof.
+  intros [Hc [Hs Hi]]. split; [|split; cbn; auto]. intro k'. rewrite !lookup_put. now rewrite Hc.
+Qed.
+
+Lemma put_in_cache_same x v p a s s' :
+  same_state s s' -> same_state (put_in_cache x v p a s) (put_in_cache x v p a s').
+Proof. intro H. unfold put_in_cache. destruct (v_nostore x); auto. now apply put_same. Qed.
+
+Lemma add_invalid_same ks s s' : same_state s s' -> same_state (add_invalid ks s) (add_invalid ks s').
+Proof. intros [Hc [Hs Hi]]. repeat split; cbn; auto. now rewrite Hi. Qed.
+
+Lemma push_same k s s' : same_state s s' -> same_state (push k s) (push k s').
+Proof. intros [Hc [Hs Hi]]. repeat split; cbn; auto. now rewrite Hs. Qed.
+
+Lemma pop_same s s' : same_state s s' -> same_state (pop s) (pop s').
+Proof. intros [Hc [Hs Hi]]. repeat split; cbn; auto. now rewrite Hs. Qed.
+
+Lemma get_array_same pp x s s' v p : same_state s s' -> get_array pp x s v p = get_array pp x s' v p.
+Proof. intros [Hc _]. unfold get_array. destruct (v_neutral x); auto. Qed.
+
+Lemma calc_body_same sy pp (rec1 rec2 : st -> nat -> period -> st * res val) :
+  (forall s s' w q, same_state s s' ->
+     same_state (fst (rec1 s w q)) (fst (rec2 s' w q)) /\ snd (rec1 s w q) = snd (rec2 s' w q)) ->
+  forall s s' v p, same_state s s' ->
+    same_state (fst (calc_body rec1 sy pp s v p)) (fst (calc_body rec2 sy pp s' v p))
+    /\ snd (calc_body rec1 sy pp s v p) = snd (calc_body rec2 sy pp s' v p).
+Proof.
+  intros Hrec s s' v p Hs. unfold calc_body.
+  destruct (nth_error (vars sy) v) as [x|]; cbn [fst snd]; auto.
+  destruct (check_consistency x p) as [[]|]; cbn [fst snd]; auto.
+  rewrite (get_array_same pp x s s' v p Hs).
+  pose proof Hs as [Hc [Hst Hi]].
+  destruct (get_array pp x s' v p) as [a|]; cbn [fst snd].
+  - split; auto. rewrite Hi, Hst. destruct (existsb _ _); auto. now apply add_invalid_same.
+  - rewrite Hst. destruct (existsb (period_eqb p) _); cbn [fst snd]; auto.
+    destruct (Nat.leb _ _); cbn [fst snd].
+    + split; auto. now apply add_invalid_same.
+    + destruct (formula_at x p) as [[e|]|]; cbn [fst snd]; auto.
+      * destruct (eval_rel sy pp rec1 rec2 same_state Hrec e (v_ent x) s s' p Hs) as [H1 H2].
+        destruct (eval rec1 sy pp (v_ent x) s p e) as [s1 r1];
+          destruct (eval rec2 sy pp (v_ent x) s' p e) as [s1' r1'].
+        cbn [fst snd] in *. subst r1'. destruct r1; cbn [fst snd]; auto.
+        split; auto. now apply put_in_cache_same.
+      * split; auto. now apply put_in_cache_same.
+Qed.
+
+Lemma calc_same sy pp : forall fuel s s' v p, same_state s s' ->
+  same_state (fst (calc fuel sy pp s v p)) (fst (calc fuel sy pp s' v p))
+  /\ snd (calc fuel sy pp s v p) = snd (calc fuel sy pp s' v p).
+Proof.
+  induction fuel as [|f IH]; intros s s' v p Hs; cbn [calc]; [auto|].
+  destruct (calc_body_same sy pp (calc f sy pp) (calc f sy pp) IH
+              (push (v, p) s) (push (v, p) s') v p (push_same _ _ _ Hs)) as [H1 H2].
+  destruct (calc_body (calc f sy pp) sy pp (push (v, p) s) v p) as [s1 r1];
+    destruct (calc_body (calc f sy pp) sy pp (push (v, p) s') v p) as [s1' r1'].
+  cbn [fst snd] in *. split; auto. apply purge_same. now apply pop_same.
+Qed.
+
+Lemma step_same sy pp fuel s s' r : same_state s s' ->
+  same_state (fst (step fuel sy pp s r)) (fst (step fuel sy pp s' r))
+  /\ snd (step fuel sy pp s r) = snd (step fuel sy pp s' r).
+Proof.
+  intro Hs. destruct r as [v p|v p|v p|v p a|v p|v p|k on]; cbn [step].
+  - destruct (calc_same sy pp fuel s s' v p Hs) as [H1 H2].
+    destruct (calc fuel sy pp s v p) as [s1 r1]; destruct (calc fuel sy pp s' v p) as [s1' r1'].
+    cbn [fst snd] in *. now subst.
+  - destruct (nth_error (vars sy) v) as [x|]; cbn [fst snd]; auto.
+    destruct (calc_add_rel (calc fuel sy pp) (calc fuel sy pp) same_state (calc_same sy pp fuel) v x p s s' Hs)
+      as [H1 H2].
+    destruct (calc_add (calc fuel sy pp) s v x p) as [s1 r1];
+      destruct (calc_add (calc fuel sy pp) s' v x p) as [s1' r1'].
+    cbn [fst snd] in *. now subst.
+  - destruct (nth_error (vars sy) v) as [x|]; cbn [fst snd]; auto.
+    destruct (calc_divide_rel (calc fuel sy pp) (calc fuel sy pp) same_state (calc_same sy pp fuel) v x p s s' Hs)
+      as [H1 H2].
+    destruct (calc_divide (calc fuel sy pp) s v x p) as [s1 r1];
+      destruct (calc_divide (calc fuel sy pp) s' v x p) as [s1' r1'].
+    cbn [fst snd] in *. now subst.
+  - unfold set_input. destruct (nth_error (vars sy) v) as [x|]; cbn [fst snd]; auto.
+    repeat (match goal with |- context [if ?b then _ else _] => destruct b; cbn [fst snd]; auto end).
+    split; auto. now apply put_same.
+  - destruct (nth_error (vars sy) v) as [x|]; cbn [fst snd]; auto. split; auto.
+    destruct Hs as [Hc [Hst Hi]]. unfold delete_arrays. destruct p as [q|].
+    + split; [|split; cbn; auto]. cbn [cache]. now apply delete_one_same.
+    + split; [|split; cbn; auto]. cbn [cache]. intro k.
+      rewrite !(lookup_filter_key (fun k1 => negb (Nat.eqb (fst k1) v))). now rewrite Hc.
+  - destruct (nth_error (vars sy) v) as [x|]; cbn [fst snd]; auto. split; auto.
+    now rewrite (get_array_same pp x s s' v p Hs).
+  - auto.
+Qed.
+
+Lemma run_same pp fuel : forall rs sy s s', same_state s s' ->
+  same_state (fst (Engine.run fuel sy pp s rs)) (fst (Engine.run fuel sy pp s' rs))
+  /\ snd (Engine.run fuel sy pp s rs) = snd (Engine.run fuel sy pp s' rs).
+Proof.
+  induction rs as [|r rs IH]; intros sy s s' Hs; cbn [Engine.run]; [auto|].
+  destruct (step_same sy pp fuel s s' r Hs) as [H1 H2].
+  destruct (step fuel sy pp s r) as [s1 a1]; destruct (step fuel sy pp s' r) as [s1' a1'].
+  cbn [fst snd] in *. subst a1'.
+  destruct (IH (sys_after sy r) s1 s1' H1) as [H3 H4].
+  destruct (Engine.run fuel (sys_after sy r) pp s1 rs) as [s2 l2];
+    destruct (Engine.run fuel (sys_after sy r) pp s1' rs) as [s2' l2'].
+  cbn [fst snd] in *. now subst.
+Qed.
+
+(** * The decidable form of the hypotheses *)
+
+Lemma nodup_strings_sound l : nodup_strings l = true -> NoDup l.
+Proof.
+  induction l as [|x l IH]; cbn [nodup_strings]; intro H; [constructor|].
+  apply andb_true_iff in H as [H1 H2]. constructor; [|auto].
+  intro Hin. apply negb_true_iff in H1.
+  assert (existsb (String.eqb x) l = true); [|congruence].
+  apply existsb_exists. exists x. split; [exact Hin|apply String.eqb_refl].
+Qed.
+
+Lemma lookup_in_pair k a c : lookup k c = Some a -> In (k, a) c.
+Proof.
+  unfold lookup. destruct (find _ c) as [[k' a']|] eqn:E; cbn; [|discriminate].
+  intro H. inversion H. subst a'. apply find_some in E as [Hin Heq]. cbn [fst] in Heq.
+  apply key_eqb_iff in Heq. now subst k'.
+Qed.
+
+Lemma dumpable_b_sound sy og u :
+  dumpable_b sy og u = true -> dumpable (fun _ => True) sy og u.
+Proof.
+  unfold dumpable_b. rewrite !andb_true_iff. intros [[Hk Hp] Hg]. split; [|split].
+  - intros k a Hl. apply lookup_in_pair in Hl. rewrite forallb_forall in Hk.
+    specialize (Hk _ Hl). cbn [fst snd] in Hk. unfold key_ok_b in Hk.
+    destruct (nth_error (vars sy) (fst k)) as [x|] eqn:Ex; [|discriminate].
+    rewrite !andb_true_iff in Hk. destruct Hk as [[Hn Hs] Hlen].
+    exists x. split; [exact Ex|]. split; [now apply negb_true_iff in Hn|].
+    split; [|split; [now apply Nat.eqb_eq in Hlen|exact I]].
+    destruct (is_eternal x).
+    + now apply period_eqb_iff in Hs.
+    + apply andb_true_iff in Hs as [Hu Hz]. apply unit_eqb_iff in Hu. apply Z.leb_le in Hz. auto.
+  - now apply Nat.eqb_eq in Hp.
+  - destruct og as [e|]; [|now apply Nat.eqb_eq in Hg].
+    unfold group_ok_b in Hg. rewrite !andb_true_iff in Hg.
+    destruct Hg as [[[[H1 H2] H3] H4] H5]. split; [now apply Nat.eqb_eq in H1|].
+    split; [intro E; rewrite E in H2; discriminate|].
+    split; [now apply nodup_strings_sound|]. split.
+    + intros r Hr. rewrite forallb_forall in H4. specialize (H4 r Hr).
+      apply existsb_exists in H4 as [r' [Hin Heq]]. apply Nat.eqb_eq in Heq. now subst r'.
+    + destruct (positions u) as [pos|]; [eauto|discriminate].
+Qed.
+
+(** * Ranked systems: the restored simulation answers with the meaning *)
+
+Lemma Top_same sy pp inp s s' : Top sy pp inp s -> same_state s s' -> Top sy pp inp s'.
+Proof.
+  intros [[I1 [I2 I3]] Hst] [Hc [Hs Hi]]. split; [|congruence]. split; [|split; [|congruence]].
+  - intros v x q a Ex Hn Hl. rewrite <- Hc in Hl. eapply I1; eauto.
+  - intros k a Hk. rewrite <- Hc. auto.
+Qed.
+
+Theorem restored_answers_meaning : forall sy pp inp, ranked sy = true -> 1 <= max_loops sy ->
+  forall s s', Top sy pp inp s -> same_state s s' ->
+  forall rs, forallb is_calc_request rs = true ->
+  snd (Engine.run (enough_fuel sy) sy pp s' rs) = map (sem_answer sy pp inp) rs
+  /\ snd (Engine.run (enough_fuel sy) sy pp s' rs) = snd (Engine.run (enough_fuel sy) sy pp s rs).
+Proof.
+  intros sy pp inp Hr Hl s s' HT Hs rs Hrs.
+  pose proof (Top_same _ _ _ _ _ HT Hs) as HT'.
+  destruct (run_refines_meaning sy pp inp Hr Hl rs s Hrs HT) as [E1 _].
+  destruct (run_refines_meaning sy pp inp Hr Hl rs s' Hrs HT') as [E2 _].
+  split; congruence.
+Qed.
+
+(** * Dump, restore, then any requests *)
+
+Theorem dump_restore_run_proof :
+  forall (show : period -> string) (parse : string -> res period) (storable : period -> Prop),
+  (forall p, storable p -> parse (show p) = Ok p) ->
+  forall sy og u, dumpable storable sy og u -> stack (u_st u) = [] -> invalid (u_st u) = [] ->
+  exists f u', dump_simulation show sy og u [] = Ok f
+    /\ restore_simulation parse sy og f = Ok u'
+    /\ forall fuel rs,
+         snd (Engine.run fuel sy (pop_of og u') (u_st u') rs)
+         = snd (Engine.run fuel sy (pop_of og u) (u_st u) rs).
+Proof.
+  intros show parse storable RT sy og u Hd Hst Hinv.
+  destruct (restore_dump_identity_proof show parse storable RT sy og u Hd)
+    as [f [u' [E1 [E2 [L [S' [I' [_ Hp]]]]]]]].
+  exists f, u'. split; [exact E1|]. split; [exact E2|]. intros fuel rs. rewrite Hp.
+  apply run_same. split; [exact L|]. split; congruence.
+Qed.
+
+(** * Before the fix: the number of groups was max(members_entity_id) + 1 *)
+
+Lemma group_count_before_fix_refuted :
+  exists (gids members : list nat), length gids <> group_count_before_fix members
+                       /\ Forall (fun m => m < length gids) members.
+Proof. exists [7; 8; 9], [0; 1; 0]. split; [cbn; lia|repeat constructor]. Qed.
+
+(** * The instance that the correspondence runs *)
+
+Theorem restore_dump_identity_corr : forall sy og u, dumpable_b sy og u = true ->
+  exists f u', dump_simulation show_enc sy og u [] = Ok f
+    /\ restore_simulation parse_enc sy og f = Ok u'
+    /\ (forall k, lookup k (cache (u_st u')) = lookup k (cache (u_st u)))
+    /\ stack (u_st u') = [] /\ invalid (u_st u') = []
+    /\ same_structure og u u'
+    /\ pop_of og u' = pop_of og u.
+Proof.
+  intros sy og u Hb.
+  exact (restore_dump_identity_proof show_enc parse_enc (fun _ => True) (fun p _ => enc_roundtrip p)
+           sy og u (dumpable_b_sound sy og u Hb)).
+Qed.
